@@ -42,7 +42,7 @@ Lemma first_line L0 S P0 partial ls acc :
   rstrip_chars l_cont S = P0 -> first_ok is_alnum P0 = true ->
   load_lines ((L0 ++ nl) :: ls) partial acc =
     if nonempty partial then
-      match single partial with Err e => Err e | Ok r => load_lines ls P0 (push r acc) end
+      match single true partial with Err e => Err e | Ok r => load_lines ls P0 (push r acc) end
     else load_lines ls P0 acc.
 Proof.
   intros HS HaS Hh HP HaP. cbn [load_lines]. rewrite HS.
@@ -50,7 +50,7 @@ Proof.
   destruct (alnum_first_not_special P0 HaP) as [_ Hx].
   unfold line_step. destruct (nonempty partial) eqn:Hp.
   - unfold multi_step. rewrite HS, HP, Hp, Hx. rewrite (first_ok_nonempty _ _ HaP).
-    cbn [negb orb andb]. destruct (single partial) as [r|e]; reflexivity.
+    cbn [negb orb andb]. destruct (single true partial) as [r|e]; reflexivity.
   - assert (forall_chars (neqc "#"%char) (L0 ++ nl) = true) as Hh'.
     { rewrite forall_chars_app, Hh. reflexivity. }
     rewrite (partition_char_miss _ _ Hh'). rewrite HS. rewrite (first_ok_nonempty _ _ HaS).
@@ -61,12 +61,12 @@ Qed.
 Lemma load_end partial acc :
   load_lines [] partial acc =
     if nonempty partial then
-      match single partial with Err e => Err e | Ok r => Ok (rev (push r acc)) end
+      match single true partial with Err e => Err e | Ok r => Ok (rev (push r acc)) end
     else Ok (rev acc).
 Proof.
   cbn [load_lines]. destruct (nonempty partial) eqn:Hp; [|reflexivity].
   unfold multi_step. change (rstrip_chars l_cont (strip "")) with "". rewrite Hp.
-  cbn [nonempty negb orb andb]. destruct (single partial) as [r|e]; reflexivity.
+  cbn [nonempty negb orb andb]. destruct (single true partial) as [r|e]; reflexivity.
 Qed.
 
 (* ------------------------------------------------------------------ the lines of one pin (multi-line format) *)
